@@ -289,8 +289,9 @@ class Result:
             "wall_s": round(time.time() - self.t0, 2), "violations": len(self.violations),
             "known_findings": self.known, "notes": self.notes,
         }
-        os.makedirs(os.path.join(VERIF, "evidence"), exist_ok=True)
-        with open(os.path.join(VERIF, "evidence", self.pid + ".json"), "w") as f:
+        evdir = os.environ.get("VERIF_EVIDENCE_DIR") or os.path.join(VERIF, "evidence")  # seed experiments redirect it
+        os.makedirs(evdir, exist_ok=True)
+        with open(os.path.join(evdir, self.pid + ".json"), "w") as f:
             json.dump(ev, f, indent=1, default=str)
         sys.stdout.flush()
         return 1 if self.violations else 0
